@@ -1,7 +1,7 @@
 /-
   CC.Proofs.PortImpl — helper lemmas for the code-level theorem of C06: on a network without
   ideal voltage sources in which nothing is pruned, the matrix that `open_circuit_impedance`
-  inverts is the nodal matrix of the probe network, and a column of its inverse is a solution
+  solves is the MNA matrix of the probe network, and its solution is a solution
   of that network's equations (through the lead's `C01_sound`).
 -/
 import CC.Proofs.PortLemmas
@@ -71,85 +71,11 @@ theorem idxOf?_inj {α : Type} [DecidableEq α] {l : List α} {a b : α} {k : Na
             simp [h1] at ha; simp [h2] at hb
             exact ih h1 (by rw [h2]; congr 1; omega)
 
-/-- a column of `Z`, read through the index map of the node list -/
-def colFun (nodes : List L) (Z : List (List K)) (i : Nat) : L → K :=
-  fun m => (Z.getD ((idxOf? m nodes).getD 0) []).getD i 0
-
-theorem colL_eq_map (nodes : List L) (hn : nodes.Nodup) (Z : List (List K)) (hZ : Z.length = nodes.length)
-    (i : Nat) : colL Z i = nodes.map (colFun nodes Z i) := by
-  apply List.ext_getElem
-  · simp [colL, hZ]
-  · intro k h1 h2
-    have hk : k < nodes.length := by simpa using h2
-    simp only [colL, List.getElem_map, colFun]
-    rw [idxOf?_getElem nodes hn k hk]
-    simp only [Option.getD_some]
-    have hkZ : k < Z.length := by omega
-    simp [List.getD_eq_getElem?_getD, List.getElem?_eq_getElem hkZ]
-
-
 /-- the probe network on the network's own reference node -/
 abbrev probeM (P : Net L K) (pid : String) (a : L) : Net L K := probeNet P pid a P.zero 1
 
 theorem probeM_branches (P : Net L K) (pid : String) (a : L) :
     (probeM P pid a).branches = zs P.branches ++ [probeBranch pid a P.zero 1] := rfl
-
-theorem probeM_vs (P : Net L K) (pid : String) (a : L)
-    (hvs : ∀ b ∈ P.branches, b.e.isIdealVS = false) : (probeM P pid a).vs = [] := by
-  unfold Net.vs
-  rw [List.filter_eq_nil_iff]
-  intro b hb
-  rw [probeM_branches] at hb
-  rcases List.mem_append.mp hb with hb | hb
-  · obtain ⟨c, hc, rfl⟩ := List.mem_map.mp hb
-    simp [zeroSources_isIdealVS, hvs c hc]
-  · simp only [List.mem_singleton] at hb; subst hb
-    simp [probeBranch, Elem.isIdealVS]
-
-theorem probeM_vsSorted (P : Net L K) (pid : String) (a : L)
-    (hvs : ∀ b ∈ P.branches, b.e.isIdealVS = false) : (probeM P pid a).vsSorted = [] := by
-  simp [Net.vsSorted, Net.vsIds, probeM_vs P pid a hvs, sortL_nil, Net.byIds]
-
-theorem probeM_nonVS (P : Net L K) (pid : String) (a : L)
-    (hvs : ∀ b ∈ P.branches, b.e.isIdealVS = false) :
-    (probeM P pid a).nonVS = (probeM P pid a).branches := by
-  unfold Net.nonVS
-  rw [List.filter_eq_self]
-  intro b hb
-  rw [probeM_branches] at hb
-  rcases List.mem_append.mp hb with hb | hb
-  · obtain ⟨c, hc, rfl⟩ := List.mem_map.mp hb
-    simp [zeroSources_isIdealVS, hvs c hc]
-  · simp only [List.mem_singleton] at hb; subst hb
-    simp [probeBranch, Elem.isIdealVS]
-
-theorem nonVS_self (P : Net L K) (hvs : ∀ b ∈ P.branches, b.e.isIdealVS = false) :
-    P.nonVS = P.branches := by
-  unfold Net.nonVS
-  rw [List.filter_eq_self]
-  intro b hb; simp [hvs b hb]
-
-theorem probeM_Yentry (P : Net L K) (pid : String) (a : L)
-    (hvs : ∀ b ∈ P.branches, b.e.isIdealVS = false) (n m : L) :
-    (probeM P pid a).Yentry n m = P.Yentry n m := by
-  unfold Net.Yentry
-  rw [probeM_nonVS P pid a hvs, nonVS_self P hvs, probeM_branches]
-  have key : ∀ p : Branch L K → Bool, (∀ b : Branch L K, p { b with e := b.e.zeroSources } = p b) →
-      (((zs P.branches ++ [probeBranch pid a P.zero 1]).filter p).map (fun b : Branch L K => b.e.Yfin)).sum
-        = ((P.branches.filter p).map (fun b : Branch L K => b.e.Yfin)).sum := by
-    intro p hp
-    rw [sum_filter_eq_sum_ite, sum_filter_eq_sum_ite, List.map_append, List.sum_append]
-    have h1 : (List.map (fun b => if p b = true then b.e.Yfin else 0) [probeBranch pid a P.zero (1 : K)]).sum = 0 := by
-      simp [probeBranch, Elem.Yfin]
-    rw [h1, add_zero]
-    simp only [zs, List.map_map]
-    apply congrArg; apply List.map_congr_left; intro b _
-    simp only [Function.comp_apply, hp b, zeroSources_Yfin]
-  by_cases h : n = m
-  · simp only [h, if_true]
-    exact key (fun b => decide (b.n1 = m ∨ b.n2 = m)) (fun b => rfl)
-  · simp only [h, if_false]
-    rw [key (fun b => decide ((b.n1 = n ∧ b.n2 = m) ∨ (b.n1 = m ∧ b.n2 = n))) (fun b => rfl)]
 
 theorem probeM_ids (P : Net L K) (pid : String) (a : L) :
     (probeM P pid a).ids = P.ids ++ [pid] := by
@@ -235,86 +161,6 @@ theorem probeM_wf (P : Net L K) (pid : String) (a : L) (hids : P.ids.Nodup) (hp 
     · simp only [List.mem_singleton] at hb; subst hb
       exact fun e => haz e.symm
 
-theorem nodeAdmittance_getD (P : Net L K) (k : Nat) (n : L) (hk : P.nodes[k]? = some n) :
-    P.nodeAdmittance.getD k [] = P.nodes.map fun m => P.Yentry n m := by
-  unfold Net.nodeAdmittance
-  rw [List.getD_eq_getElem?_getD, List.getElem?_map, hk]
-  rfl
-
-/-- row `n` of the nodal matrix times column `i` of a right inverse -/
-theorem row_inverse (P : Net L K) (Z : List (List K)) (hZ : IsInverseL P.nodeAdmittance Z)
-    (i : Nat) (hi : i < P.nodes.length) (n : L) (hn : n ∈ P.nodes) :
-    (P.nodes.map fun m => P.Yentry n m * colFun P.nodes Z i m).sum
-      = if idxOf? n P.nodes = some i then 1 else 0 := by
-  obtain ⟨k, hk, hlt, hget⟩ := idxOf?_of_mem hn
-  have hlen : P.nodeAdmittance.length = P.nodes.length := by simp [Net.nodeAdmittance]
-  have h := hZ.2 k i (by omega) (by omega)
-  rw [nodeAdmittance_getD P k n hget, colL_eq_map P.nodes (nodes_nodup P) Z (by rw [hZ.1, hlen]) i,
-    dotL_map_map] at h
-  rw [h, hk]
-  by_cases e : k = i <;> simp [e]
-
-/-- **a column of the inverse solves the probe network** -/
-theorem impl_solution (P : Net L K) (pid : String) (a : L) (hids : P.ids.Nodup) (hp : pid ∉ P.ids)
-    (hsl : ∀ b ∈ P.branches, b.n1 ≠ b.n2) (hvs : ∀ b ∈ P.branches, b.e.isIdealVS = false)
-    (hz : P.zero ∈ P.nodeLabels) (i : Nat) (hai : idxOf? a P.nodes = some i)
-    (Z : List (List K)) (hZ : IsInverseL P.nodeAdmittance Z) :
-    ∃ R : Report L K, CircuitEqs (probeNet P pid a P.zero 1) R ∧
-      R.pot a - R.pot P.zero = (Z.getD i []).getD i 0 := by
-  have ha : a ∈ P.nodes := by
-    by_contra hna
-    rw [idxOf?_none_of_not_mem hna] at hai; cases hai
-  obtain ⟨haL, haz⟩ := (mem_nodes_iff P a).mp ha
-  obtain ⟨k, hk, hilt, _⟩ := idxOf?_of_mem ha
-  have hik : k = i := by rw [hk] at hai; exact Option.some.inj hai
-  subst hik
-  set M := probeM P pid a with hM
-  have wf : M.WF := probeM_wf P pid a hids hp haL hz haz hsl
-  let s : Sol L K := ⟨colFun P.nodes Z k, fun _ => 0⟩
-  have hperm := probeM_nodes_perm P pid a haL hz
-  have rows : ∀ n ∈ M.nodes, M.rowNode s n = M.rhsNode n := by
-    intro n hn
-    have hnP : n ∈ P.nodes := hperm.mem_iff.mp hn
-    unfold Net.rowNode
-    rw [probeM_vsSorted P pid a hvs, probeM_rhsNode P pid a hids hp haz]
-    simp only [List.map_nil, List.sum_nil, add_zero]
-    have e1 : (M.nodes.map fun m => M.Yentry n m * s.phi m)
-        = M.nodes.map fun m => P.Yentry n m * colFun P.nodes Z k m := by
-      apply List.map_congr_left; intro m _
-      rw [probeM_Yentry P pid a hvs]
-    rw [e1, sum_map_perm hperm, row_inverse P Z hZ k hilt n hnP]
-    by_cases e : a = n
-    · subst e; simp [hk]
-    · have : idxOf? n P.nodes ≠ some k := fun h => e (idxOf?_inj hk h)
-      simp [e, this]
-  have hmat : matVec M.mnaA (M.pack s) = M.mnaB := by
-    rw [matVec_pack_iff]
-    refine ⟨rows, ?_⟩
-    intro b hb
-    rw [probeM_vsSorted P pid a hvs] at hb
-    simp at hb
-  have hsound := (C01_sound M (M.pack s) wf (pack_length M wf.ids_nodup s) hmat).2.2
-  refine ⟨_, hsound, ?_⟩
-  -- the potential of `a` read back from the packed vector
-  have hx := pack_solOf M wf.ids_nodup (M.pack s) (pack_length M wf.ids_nodup s)
-  have hphi : ∀ m ∈ M.nodes, (M.solOf (M.pack s)).phi m = s.phi m := by
-    have h1 : M.nodes.map s.phi = M.nodes.map (M.solOf (M.pack s)).phi := by
-      have := hx
-      unfold Net.pack at this
-      exact (List.append_inj this (by simp)).1
-    intro m hm
-    exact (List.map_inj_left.mp h1 m hm).symm
-  have haM : a ∈ M.nodes := hperm.mem_iff.mpr ha
-  have hMz : M.zero = P.zero := rfl
-  have hz0 : (M.reportOf (M.pack s)).pot P.zero = 0 := by
-    have := hsound.ref_zero
-    rw [hMz] at this; exact this
-  have hpa : (M.reportOf (M.pack s)).pot a = s.phi a := by
-    simp only [Net.reportOf, Net.pot, hMz, haz, if_false]
-    exact hphi a haM
-  rw [hz0, hpa, sub_zero]
-  simp only [s, colFun, hk, Option.getD_some]
-
 theorem probe_flip (N : Net L K) (pid : String) (hp : pid ∉ N.ids) (a b : L) (R : Report L K)
     (hR : CircuitEqs (probeNet N pid a b 1) R) :
     ∃ S : Report L K, CircuitEqs (probeNet N pid b a 1) S ∧ ∀ n, S.pot n = - R.pot n := by
@@ -335,25 +181,296 @@ theorem probe_move (M : Net L K) (pid : String) (a b g : L) (R : Report L K)
   refine ⟨eqsInj_shift g h1, e1, ?_⟩
   simp only [Report.portShift]; rw [e2]; ring
 
-theorem diagAt_ok {Z : List (List K)} {i : Nat} {z : K} (h : diagAt Z i = .ok z) :
-    (Z.getD i []).getD i 0 = z := by
-  unfold diagAt at h
-  cases h1 : Z[i]? with
-  | none => rw [h1] at h; cases h
-  | some r =>
-    rw [h1] at h
-    cases h2 : r[i]? with
-    | none => simp [h2] at h
-    | some w =>
-      simp only [h2] at h
-      cases h
-      simp [List.getD_eq_getElem?_getD, h1, h2]
 
-/-- what `portPre` has established when it hands a matrix to `inv` -/
-theorem portPre_mat {N : Net L K} {n1 n2 : L} {N' : Net L K} {Y : List (List K)} {a : L}
-    (h : N.portPre n1 n2 = .ok (.mat N' Y a)) :
+/-! ### the MNA matrix of the probe network is the MNA matrix of the network -/
+
+/-- the branch with its source zeroed -/
+abbrev zsB (b : Branch L K) : Branch L K := { b with e := b.e.zeroSources }
+
+theorem probeM_vs (P : Net L K) (pid : String) (a : L) : (probeM P pid a).vs = P.vs.map zsB := by
+  unfold Net.vs
+  rw [probeM_branches, List.filter_append]
+  have h1 : [probeBranch pid a P.zero (1 : K)].filter (fun b : Branch L K => b.e.isIdealVS) = [] := by
+    simp [probeBranch, Elem.isIdealVS]
+  rw [h1, List.append_nil, zs, List.filter_map]
+  congr 1
+  apply List.filter_congr
+  intro b _
+  simp [zeroSources_isIdealVS]
+
+theorem probeM_vsIds (P : Net L K) (pid : String) (a : L) : (probeM P pid a).vsIds = P.vsIds := by
+  unfold Net.vsIds
+  rw [probeM_vs, List.map_map]
+  rfl
+
+theorem probeM_get? (P : Net L K) (pid : String) (a : L) (hids : P.ids.Nodup) (hp : pid ∉ P.ids)
+    {b : Branch L K} (hb : b ∈ P.branches) : (probeM P pid a).get? b.id = some (zsB b) := by
+  have hmem : zsB b ∈ (probeM P pid a).branches := by
+    rw [probeM_branches]; exact List.mem_append_left _ (List.mem_map.mpr ⟨b, hb, rfl⟩)
+  exact get?_of_mem (probeM P pid a) (probeM_ids_nodup P pid a hids hp) hmem
+
+theorem probeM_vsSorted (P : Net L K) (pid : String) (a : L) (hids : P.ids.Nodup) (hp : pid ∉ P.ids) :
+    (probeM P pid a).vsSorted = P.vsSorted.map zsB := by
+  unfold Net.vsSorted
+  rw [probeM_vsIds]
+  unfold Net.byIds
+  have hall : ∀ id ∈ P.vsIds, ∃ b ∈ P.branches, b.id = id := by
+    intro id hid
+    have : id ∈ P.vs.map (·.id) := mem_sortL.mp hid
+    obtain ⟨b, hb, rfl⟩ := List.mem_map.mp this
+    exact ⟨b, (List.mem_filter.mp hb).1, rfl⟩
+  generalize P.vsIds = ids at hall
+  induction ids with
+  | nil => simp
+  | cons id ids ih =>
+    obtain ⟨b, hb, rfl⟩ := hall _ (List.mem_cons_self ..)
+    simp only [List.filterMap_cons, get?_of_mem P hids hb, probeM_get? P pid a hids hp hb, List.map_cons]
+    rw [ih (fun i hi => hall i (List.mem_cons_of_mem _ hi))]
+
+theorem probeM_Yentry (P : Net L K) (pid : String) (a : L) (n m : L) :
+    (probeM P pid a).Yentry n m = P.Yentry n m := by
+  have hnv : (probeM P pid a).nonVS = zs P.nonVS ++ [probeBranch pid a P.zero 1] := by
+    unfold Net.nonVS
+    rw [probeM_branches, List.filter_append]
+    have h1 : [probeBranch pid a P.zero (1 : K)].filter (fun b : Branch L K => !b.e.isIdealVS)
+        = [probeBranch pid a P.zero 1] := by simp [probeBranch, Elem.isIdealVS]
+    rw [h1, zs, zs, List.filter_map]
+    congr 2
+    apply List.filter_congr
+    intro b _
+    simp [zeroSources_isIdealVS]
+  unfold Net.Yentry
+  rw [hnv]
+  have key : ∀ p : Branch L K → Bool, (∀ b : Branch L K, p { b with e := b.e.zeroSources } = p b) →
+      (((zs P.nonVS ++ [probeBranch pid a P.zero 1]).filter p).map (fun b : Branch L K => b.e.Yfin)).sum
+        = ((P.nonVS.filter p).map (fun b : Branch L K => b.e.Yfin)).sum := by
+    intro p hp
+    rw [sum_filter_eq_sum_ite, sum_filter_eq_sum_ite, List.map_append, List.sum_append]
+    have h1 : (List.map (fun b => if p b = true then b.e.Yfin else 0) [probeBranch pid a P.zero (1 : K)]).sum = 0 := by
+      simp [probeBranch, Elem.Yfin]
+    rw [h1, add_zero]
+    simp only [zs, List.map_map]
+    apply congrArg; apply List.map_congr_left; intro b _
+    simp only [Function.comp_apply, hp b, zeroSources_Yfin]
+  by_cases h : n = m
+  · simp only [h, if_true]
+    exact key (fun b => decide (b.n1 = m ∨ b.n2 = m)) (fun b => rfl)
+  · simp only [h, if_false]
+    rw [key (fun b => decide ((b.n1 = n ∧ b.n2 = m) ∨ (b.n1 = m ∧ b.n2 = n))) (fun b => rfl)]
+
+/-- node rows of the probe network = node rows of the network (same label-indexed unknowns) -/
+theorem probeM_rowNode (P : Net L K) (pid : String) (a : L) (hids : P.ids.Nodup) (hp : pid ∉ P.ids)
+    (ha : a ∈ P.nodeLabels) (hz : P.zero ∈ P.nodeLabels) (s : Sol L K) (n : L) :
+    (probeM P pid a).rowNode s n = P.rowNode s n := by
+  unfold Net.rowNode
+  rw [probeM_vsSorted P pid a hids hp, List.map_map]
+  congr 1
+  have e1 : ((probeM P pid a).nodes.map fun m => (probeM P pid a).Yentry n m * s.phi m)
+      = (probeM P pid a).nodes.map fun m => P.Yentry n m * s.phi m := by
+    apply List.map_congr_left; intro m _; rw [probeM_Yentry]
+  rw [e1]
+  exact sum_map_perm (probeM_nodes_perm P pid a ha hz) _
+
+theorem probeM_rowVS (P : Net L K) (pid : String) (a : L) (ha : a ∈ P.nodeLabels)
+    (hz : P.zero ∈ P.nodeLabels) (s : Sol L K) (b : Branch L K) :
+    (probeM P pid a).rowVS s (zsB b) = P.rowVS s b := by
+  unfold Net.rowVS
+  exact sum_map_perm (probeM_nodes_perm P pid a ha hz) _
+
+/-! ### rows of the matrix–vector product -/
+
+theorem matVec_pack_rows (N : Net L K) (s : Sol L K) :
+    matVec N.mnaA (N.pack s)
+      = (N.nodes.map fun n => N.rowNode s n) ++ (N.vsSorted.map fun b => N.rowVS s b) := by
+  have hrowN : ∀ i, dotL ((N.nodes.map fun j => N.Yentry i j) ++ (N.vsSorted.map fun b => b.dir i)) (N.pack s)
+      = N.rowNode s i := by
+    intro i
+    unfold Net.pack
+    rw [dotL_append _ _ _ _ (by simp), dotL_map_map, dotL_map_map]
+    rfl
+  have hrowV : ∀ b : Branch L K, dotL ((N.nodes.map fun j => b.dir j) ++ (N.vsSorted.map fun _ => (0 : K))) (N.pack s)
+      = N.rowVS s b := by
+    intro b
+    unfold Net.pack
+    rw [dotL_append _ _ _ _ (by simp), dotL_map_map, dotL_zeros]
+    simp [Net.rowVS]
+  unfold matVec Net.mnaA
+  rw [List.map_append, List.map_map, List.map_map]
+  congr 1
+  · apply List.map_congr_left; intro n _; simp only [Function.comp_apply]; rw [hrowN]
+  · apply List.map_congr_left; intro b _; simp only [Function.comp_apply]; rw [hrowV]
+
+theorem unitVec_split (nodes : List L) (hn : nodes.Nodup) {β : Type} (vs : List β) (i : Nat)
+    (hi : i < nodes.length) :
+    (unitVec (nodes.length + vs.length) i : List K)
+      = (nodes.map fun n => if idxOf? n nodes = some i then (1 : K) else 0) ++ vs.map fun _ => (0 : K) := by
+  apply List.ext_getElem
+  · simp [unitVec]
+  · intro k h1 h2
+    simp only [unitVec, List.getElem_map, List.getElem_range]
+    by_cases hk : k < nodes.length
+    · rw [List.getElem_append_left (by simpa using hk)]
+      simp only [List.getElem_map]
+      rw [idxOf?_getElem nodes hn k hk]
+      by_cases e : k = i <;> simp [e]
+    · rw [List.getElem_append_right (by simpa using hk)]
+      have : k ≠ i := by omega
+      simp [this]
+
+/-- **the solution of the unit-injection MNA system solves the probe network** (ideal voltage
+sources anywhere are fine) -/
+theorem impl_solution (P : Net L K) (pid : String) (a : L) (hids : P.ids.Nodup) (hp : pid ∉ P.ids)
+    (hsl : ∀ b ∈ P.branches, b.n1 ≠ b.n2) (hz : P.zero ∈ P.nodeLabels)
+    (i : Nat) (hai : idxOf? a P.nodes = some i) (x : List K)
+    (hx : x.length = P.nodes.length + P.vsIds.length)
+    (hsol : matVec P.mnaA x = unitVec (P.nodes.length + P.vsIds.length) i) :
+    ∃ R : Report L K, CircuitEqs (probeNet P pid a P.zero 1) R ∧
+      R.pot a - R.pot P.zero = x.getD i 0 := by
+  have ha : a ∈ P.nodes := by
+    by_contra hna
+    rw [idxOf?_none_of_not_mem hna] at hai; cases hai
+  obtain ⟨haL, haz⟩ := (mem_nodes_iff P a).mp ha
+  obtain ⟨k, hk, hilt, _⟩ := idxOf?_of_mem ha
+  have hik : k = i := by rw [hk] at hai; exact Option.some.inj hai
+  subst hik
+  set M := probeM P pid a with hM
+  have wf : M.WF := probeM_wf P pid a hids hp haL hz haz hsl
+  set s := P.solOf x with hs
+  -- the rows of the network's own system
+  have hrows : (P.nodes.map fun n => P.rowNode s n) ++ (P.vsSorted.map fun b => P.rowVS s b)
+      = (P.nodes.map fun n => if idxOf? n P.nodes = some k then (1 : K) else 0)
+        ++ P.vsSorted.map fun _ => (0 : K) := by
+    have hpx : P.pack s = x := (pack_solOf P hids x hx).symm
+    rw [← matVec_pack_rows, hpx, hsol, ← vsSorted_length P hids]
+    exact unitVec_split P.nodes (nodes_nodup P) P.vsSorted k hilt
+  obtain ⟨r1, r2⟩ := List.append_inj hrows (by simp)
+  have hperm := probeM_nodes_perm P pid a haL hz
+  have rowsN : ∀ n ∈ M.nodes, M.rowNode s n = M.rhsNode n := by
+    intro n hn
+    have hnP : n ∈ P.nodes := hperm.mem_iff.mp hn
+    rw [probeM_rowNode P pid a hids hp haL hz, probeM_rhsNode P pid a hids hp haz]
+    have := List.map_inj_left.mp r1 n hnP
+    rw [this]
+    by_cases e : a = n
+    · subst e; simp [hk]
+    · have : idxOf? n P.nodes ≠ some k := fun h => e (idxOf?_inj hk h)
+      simp [e, this]
+  have rowsV : ∀ b ∈ M.vsSorted, M.rowVS s b = b.e.Vval := by
+    intro b' hb'
+    rw [probeM_vsSorted P pid a hids hp] at hb'
+    obtain ⟨b, hb, rfl⟩ := List.mem_map.mp hb'
+    rw [probeM_rowVS P pid a haL hz]
+    have := List.map_inj_left.mp r2 b hb
+    rw [this]
+    have hvs : b.e.isIdealVS = true := by
+      have : b ∈ P.vs := (vsSorted_perm P hids).mem_iff.mp hb
+      exact (List.mem_filter.mp this).2
+    cases he : b.e with
+    | thevenin Y I => rw [he] at hvs; simp [Elem.isIdealVS] at hvs
+    | norton Z V => simp [Elem.zeroSources, Elem.Vval, he]
+  have hmat : matVec M.mnaA (M.pack s) = M.mnaB := (matVec_pack_iff M s).mpr ⟨rowsN, rowsV⟩
+  have hsound := (C01_sound M (M.pack s) wf (pack_length M wf.ids_nodup s) hmat).2.2
+  refine ⟨_, hsound, ?_⟩
+  have hx' := pack_solOf M wf.ids_nodup (M.pack s) (pack_length M wf.ids_nodup s)
+  have hphi : ∀ m ∈ M.nodes, (M.solOf (M.pack s)).phi m = s.phi m := by
+    have h1 : M.nodes.map s.phi = M.nodes.map (M.solOf (M.pack s)).phi := by
+      have := hx'
+      unfold Net.pack at this
+      exact (List.append_inj this (by simp)).1
+    intro m hm
+    exact (List.map_inj_left.mp h1 m hm).symm
+  have haM : a ∈ M.nodes := hperm.mem_iff.mpr ha
+  have hMz : M.zero = P.zero := rfl
+  have hz0 : (M.reportOf (M.pack s)).pot P.zero = 0 := by
+    have := hsound.ref_zero
+    rw [hMz] at this; exact this
+  have hpa : (M.reportOf (M.pack s)).pot a = s.phi a := by
+    simp only [Net.reportOf, Net.pot, hMz, haz, if_false]
+    exact hphi a haM
+  rw [hz0, hpa, sub_zero]
+  simp only [hs, Net.solOf, hk, Option.getD_some]
+
+/-! ### masks that keep everything -/
+
+theorem selectL_all_true {α : Type} (keep : List Bool) (l : List α) (hk : keep.all id = true)
+    (hl : keep.length = l.length) : selectL keep l = l := by
+  induction keep generalizing l with
+  | nil => cases l with
+    | nil => rfl
+    | cons x xs => simp at hl
+  | cons k ks ih =>
+    cases l with
+    | nil => simp at hl
+    | cons x xs =>
+      simp only [List.all_cons, Bool.and_eq_true, id] at hk
+      obtain ⟨rfl, hks⟩ := hk
+      simp only [selectL]
+      rw [ih xs hks (by simpa using hl)]
+
+theorem countBefore_all_true (keep : List Bool) (hk : keep.all id = true) (i : Nat) (hi : i ≤ keep.length) :
+    countBefore keep i = i := by
+  unfold countBefore
+  have : (keep.take i).filter id = keep.take i := by
+    rw [List.filter_eq_self]
+    intro b hb
+    have := List.all_eq_true.mp hk b (List.mem_of_mem_take hb)
+    simpa using this
+  rw [this, List.length_take]; omega
+
+theorem mnaA_length (N : Net L K) : N.mnaA.length = N.nodes.length + N.vsSorted.length := by
+  simp [Net.mnaA]
+
+theorem mnaA_row_length (N : Net L K) : ∀ r ∈ N.mnaA, r.length = N.nodes.length + N.vsSorted.length := by
+  intro r hr
+  unfold Net.mnaA at hr
+  rcases List.mem_append.mp hr with h | h
+  · obtain ⟨i, _, rfl⟩ := List.mem_map.mp h; simp
+  · obtain ⟨b, _, rfl⟩ := List.mem_map.mp h; simp
+
+theorem subMatrix_all_true (N : Net L K) (keep : List Bool) (hk : keep.all id = true)
+    (hl : keep.length = N.mnaA.length) : subMatrix keep N.mnaA = N.mnaA := by
+  unfold subMatrix
+  rw [selectL_all_true keep _ hk hl]
+  conv_rhs => rw [← List.map_id N.mnaA]
+  apply List.map_congr_left
+  intro r hr
+  rw [selectL_all_true keep r hk (by rw [hl, mnaA_length, mnaA_row_length N r hr])]
+  rfl
+
+theorem keepMask_length (n : Nat) (A : List (List K)) : (keepMask n A).length = n := by
+  simp [keepMask]
+
+/-! ### what `portPre` has established -/
+
+theorem portSys_sys {P : Net L K} {a : L} {N' : Net L K} {keep : List Bool} {A : List (List K)}
+    {e : List K} {i1 : Nat} (h : P.portSys a = .ok (.sys N' keep A e i1)) :
+    N' = P ∧ keep = keepMask P.mnaA.length P.mnaA ∧ A = subMatrix keep P.mnaA ∧
+      (∃ i, idxOf? a P.nodes = some i ∧ i1 = countBefore keep i) ∧ e = unitVec A.length i1 ∧
+      i1 < A.length := by
+  unfold Net.portSys at h
+  cases hidx : idxOf? a P.nodes with
+  | none => simp [hidx] at h
+  | some i =>
+    simp only [hidx] at h
+    by_cases hlt : countBefore (keepMask P.mnaA.length P.mnaA) i
+        < (subMatrix (keepMask P.mnaA.length P.mnaA) P.mnaA).length
+    · simp only [hlt, if_true] at h
+      cases h
+      exact ⟨rfl, rfl, rfl, ⟨i, rfl, rfl⟩, rfl, hlt⟩
+    · simp [hlt] at h
+
+theorem portSys_not_early {P : Net L K} {a : L} : P.portSys a ≠ .ok .early := by
+  unfold Net.portSys
+  cases idxOf? a P.nodes with
+  | none => simp
+  | some i =>
+    simp only
+    split <;> simp
+
+theorem portPre_sys {N : Net L K} {n1 n2 : L} {N' : Net L K} {keep : List Bool} {A : List (List K)}
+    {e : List K} {i1 : Nat} (h : N.portPre n1 n2 = .ok (.sys N' keep A e i1)) :
     n1 ≠ n2 ∧ N' = { N with zero := if n1 = N.zero then n1 else n2 } ∧ N'.check = .ok () ∧
-      a = (if n1 = N.zero then n2 else n1) := by
+      N'.portSys (if n1 = N.zero then n2 else n1) = .ok (.sys N' keep A e i1) := by
   unfold Net.portPre at h
   by_cases h12 : n1 = n2
   · simp [h12] at h
@@ -366,22 +483,25 @@ theorem portPre_mat {N : Net L K} {n1 n2 : L} {N' : Net L K} {Y : List (List K)}
       | error e => simp [hc, bind, Except.bind] at h
       | ok u =>
         simp only [hc, bind, Except.bind, pure, Except.pure] at h
-        cases h
-        exact ⟨h12, rfl, hc, rfl⟩
+        have := (portSys_sys h).1
+        subst this
+        exact ⟨h12, rfl, hc, h⟩
 
-theorem portPre_early {N : Net L K} {n1 n2 : L} (h : N.portPre n1 n2 = .ok .early)
-    (hvs : ∀ b ∈ N.branches, b.e.isIdealVS = false) : n1 = n2 := by
+theorem portPre_early {N : Net L K} {n1 n2 : L} (h : N.portPre n1 n2 = .ok .early) :
+    N.portIsEarly n1 n2 = true := by
   unfold Net.portPre at h
-  by_contra h12
-  simp only [h12, if_false] at h
-  by_cases hany : (N.branchesBetween n1 n2).any (·.e.isIdealVS) = true
-  · obtain ⟨x, hx, hx2⟩ := List.any_eq_true.mp hany
-    have := hvs x (List.mem_filter.mp hx).1
-    rw [this] at hx2; cases hx2
-  · simp only [hany, Bool.false_eq_true, if_false] at h
-    unfold Net.switchGround at h
-    cases hc : ({ N with zero := if n1 = N.zero then n1 else n2 } : Net L K).check with
-    | error e => simp [hc, bind, Except.bind] at h
-    | ok u => simp [hc, bind, Except.bind, pure, Except.pure] at h
+  unfold Net.portIsEarly
+  by_cases h12 : n1 = n2
+  · simp [h12]
+  · simp only [h12, if_false] at h
+    by_cases hany : (N.branchesBetween n1 n2).any (·.e.isIdealVS) = true
+    · simp [hany]
+    · simp only [hany, Bool.false_eq_true, if_false] at h
+      unfold Net.switchGround at h
+      cases hc : ({ N with zero := if n1 = N.zero then n1 else n2 } : Net L K).check with
+      | error e => simp [hc, bind, Except.bind] at h
+      | ok u =>
+        simp only [hc, bind, Except.bind, pure, Except.pure] at h
+        exact absurd h portSys_not_early
 
 end CC
